@@ -308,27 +308,27 @@ class World:
     def _wrap_eval(self, fn, name):
         """Every evaluation of a compiled callable is a countable event: the plan may make the
         k-th evaluation of the solve raise, or the j-th evaluation after the solver returned (the
-        post-solve feasibility check is made of those)."""
+        post-solve feasibility check is made of those).  The wrapper is a transparent proxy:
+        attributes optyx puts on its compiled callables (or reads from them) go to the real one."""
+        return _EvalProxy(self, fn, name)
 
-        def evaluated(*a, **k):
-            p = self.plan
-            if p and "fault" in p and p["fault"]["site"] == "eval":
-                f = p["fault"]
-                self.eval_count += 1
-                hit = False
-                if "after_exit" in f:
-                    if self.exited:
-                        self.eval_after_exit += 1
-                        hit = self.eval_after_exit == f["after_exit"]
-                else:
-                    hit = self.eval_count == f["k"]
-                if hit:
-                    self._tick(2.0 ** -13)
-                    self.fired.append({"fault": "eval", "k": self.eval_count, "after_exit": self.exited, "kind": name, "exc": f["exc"], "seq": self.seq})
-                    raise EXC[f["exc"]](f"injected {f['exc']} at evaluation {self.eval_count} of a compiled callable ({name})")
-            return fn(*a, **k)
-
-        return evaluated
+    def _evaluated(self, fn, name, a, k):
+        p = self.plan
+        if p and "fault" in p and p["fault"]["site"] == "eval":
+            f = p["fault"]
+            self.eval_count += 1
+            hit = False
+            if "after_exit" in f:
+                if self.exited:
+                    self.eval_after_exit += 1
+                    hit = self.eval_after_exit == f["after_exit"]
+            else:
+                hit = self.eval_count == f["k"]
+            if hit:
+                self._tick(2.0 ** -13)
+                self.fired.append({"fault": "eval", "k": self.eval_count, "after_exit": self.exited, "kind": name, "exc": f["exc"], "seq": self.seq})
+                raise EXC[f["exc"]](f"injected {f['exc']} at evaluation {self.eval_count} of a compiled callable ({name})")
+        return fn(*a, **k)
 
     def _peer_for(self, entry):
         p = self.plan or {}
@@ -636,6 +636,29 @@ class _Clock:
 
     def monotonic(self):
         return self._w.clock
+
+
+class _EvalProxy:
+    """Callable stand-in for a compiled callable: counts / faults evaluations, forwards everything else."""
+
+    __slots__ = ("_w", "_fn", "_name")
+
+    def __init__(self, world, fn, name):
+        object.__setattr__(self, "_w", world)
+        object.__setattr__(self, "_fn", fn)
+        object.__setattr__(self, "_name", name)
+
+    def __call__(self, *a, **k):
+        return self._w._evaluated(self._fn, self._name, a, k)
+
+    def __getattr__(self, attr):
+        return getattr(self._fn, attr)
+
+    def __setattr__(self, attr, value):
+        setattr(self._fn, attr, value)
+
+    def __repr__(self):
+        return repr(self._fn)
 
 
 def _origin(filename):
